@@ -30,7 +30,7 @@ chk.extra['rule'] = ('a fine-grained Molecule and a particle Molecule are built 
                      'particles, positions missing/None, keys missing from the weight dict, extraneous keys); the real '
                      'do_average_bead / DoAverageBead.run_molecule is run; a case is non-trivial if some particle has '
                      '>= 2 positioned constituents with unequal weights; distinct = distinct protocol line')
-chk.lean(['VermouthProps.C09'], 'driver_c09')
+chk.lean(['VermouthProps.C09', 'VermouthProps.C09_Pipeline'], 'driver_c09')
 
 import numpy as np
 import networkx as nx
